@@ -221,8 +221,16 @@ struct Slot {
     killed_for_hang: AtomicBool,
 }
 
+/// The binary that executes a world: W6 lives in the shuttle build (other cfg flags, own target dir).
+pub fn exe_for(world: &str) -> std::path::PathBuf {
+    if world == "W6" {
+        return std::path::PathBuf::from(format!("{VERIF_DIR}/sim/target-shuttle/sim/riosim"));
+    }
+    std::env::current_exe().unwrap()
+}
+
 fn spawn_worker(world: &str, a: &WorkerArgs) -> std::io::Result<Child> {
-    let exe = std::env::current_exe()?;
+    let exe = exe_for(world);
     Command::new(exe)
         .arg("worker")
         .arg(world)
@@ -494,7 +502,6 @@ pub fn replay_in_process<W: World>(r: &Replay) -> Result<Option<Failure>, String
 
 /// Replays in a child process so that aborts and hangs are observations.
 pub fn replay_file(path: &str) -> i32 {
-    let exe = std::env::current_exe().unwrap();
     let Ok(text) = std::fs::read_to_string(path) else {
         eprintln!("cannot read {path}");
         return 2;
@@ -503,6 +510,7 @@ pub fn replay_file(path: &str) -> i32 {
         eprintln!("cannot parse {path}");
         return 2;
     };
+    let exe = exe_for(&r.world);
     let mut child = match Command::new(exe).arg("replay-inproc").arg(path).stdin(Stdio::null()).spawn() {
         Ok(c) => c,
         Err(e) => {
@@ -642,7 +650,7 @@ pub fn triage<W: World>(
                 harness_errors.push(format!("cannot write {path}"));
                 continue;
             }
-            let exe = std::env::current_exe().unwrap();
+            let exe = exe_for(W::NAME);
             let st = Command::new(exe).arg("minimise").arg(&path).stdin(Stdio::null()).stdout(Stdio::null()).stderr(Stdio::null()).status();
             match st {
                 Ok(s) if s.code() == Some(0) => {}
